@@ -99,13 +99,16 @@ class C07(Check):
     tables = ['forms', 'multipart']
     design_ref = '6/C07'
     level_text = ('Lean theorems over the model of FieldStorage.iter_items/read/parse_header (the _patt scanner as a direct '
-                  'function), BytesIOProxy, _collect_multipart and the boundary extraction of _body: encoding any field list '
-                  'in the domain and reading POST/forms/files gives back exactly those fields, upload windows are disjoint '
-                  'and lie inside their own part. Model tied to the code by a differential run (unit level and through a real '
-                  'Ombott() WSGI call with both framings) on every run.')
-    level_note_extra = ('re is re-expressed as direct functions for the two fixed patterns (probed tables checked by decide); '
-                        'str.lower is modelled on ASCII/Latin-1; the markup of an encoded body is the hypothesis MarkupExact '
-                        '(C06 section_ranges_exact)')
+                  'function), BytesIOProxy, _collect_multipart, POST and the boundary extraction of _body: for every field list '
+                  'of the domain, every boundary nameable in the header, every memory budget covering the text parts and every '
+                  'fragmentation of the encoded body, POST/forms/files show exactly those fields (uploads with name, raw '
+                  'filename, content type, exact bytes; repeated names in order, also across kinds); every upload window is '
+                  'its own part\'s data range, ranges are pairwise separated by a delimiter. The markup of the encoded body '
+                  'comes from C06 section_ranges_exact (no hypothesis left on it). Model tied to the code by a differential '
+                  'run (unit level and through a real Ombott() WSGI call with both framings) on every run.')
+    level_note_extra = ('re is re-expressed as direct functions for the two fixed patterns (probed tables checked by decide, '
+                        'exhaustive small scope in the thorough tier); str.lower is modelled on ASCII/Latin-1; the body readers '
+                        'are C04/C05 (the theorem takes the parts they yield, whose concatenation is the encoded body)')
     anchors = ['ombott/request_pkg/multipart.py', 'ombott/request_pkg/body_mixin.py', 'ombott/request_pkg/helpers.py']
     rule = ('field lists (0-5 parts; names/filenames with ; = space backslash non-ASCII, empty, duplicates, option look-alikes; '
             'empty/UTF-8 values; binary contents with CR LF dashes and delimiter prefixes) x RFC 2046 boundaries (quoted when '
@@ -118,8 +121,12 @@ class C07(Check):
                    'bytes.decode() is strict UTF-8 as core Lean\'s utf8Decode? (exercised incl. overlong forms and surrogates)',
                    'the body readers deliver the sent payload (C04/C05); the markup of an encoded body is exact (C06)',
                    'chunked framing: max_memfile_size (the read buffer) is at least the length of a chunk-size line (C05)',
-                   'domain: names and file names free of " and of the characters str.splitlines breaks at; file names '
-                   'non-empty; content types without parameters; the delimiter does not occur in any value']
+                   'domain: names and file names free of " and of line breaks, where "line break" = the set str.splitlines '
+                   'breaks at (LF VT FF CR FS GS RS NEL LS PS): such a character inside a name cuts the header line and the '
+                   'request is answered 400',
+                   'domain: file names non-empty (filename="" is what a browser sends for "no file"; the code stores None '
+                   'under that name in forms); content types without parameters (FileUpload.content_type is a Header '
+                   'namespace, its .value is what is compared); the delimiter does not occur in any value']
 
     def __init__(self):
         self.stats = {}
